@@ -51,6 +51,8 @@ def gen(rng, tier):
         quoted = pool_q if n is None else rng.sample(pool_q, n)
         for s in quoted:
             cases.append({"target": t, "src": "x = " + json.dumps(s), "entry": "meta"})
+            if rng.random() < (0.5 if n is None else 0.3):
+                cases.append({"target": t, "src": "x = " + json.dumps(s), "entry": "meta", "group_value": rng.choice([1, 2, 3])})
         for f in (FORMS if n is None else rng.sample(FORMS, 5)):
             cases.append({"target": t, "src": f, "entry": "meta"})
         if not t.startswith("helper:"):
